@@ -26,7 +26,9 @@ def finish_s(run: report.Run, so: chrun.SOutcome, rule: str, explanation: str):
 def s_replay(payload):
     rp = chrun.replay_native(payload["harness"], payload["fn"], payload["argstr"])
     print(rp)
-    return 1 if (rp.get("returned") or "raised" in rp) else 0
+    if "raised" in rp or "error" in rp:
+        return 3
+    return 1 if rp.get("returned") else 0
 
 
 S_RULE = ("one evaluation = one CrossHair execution path (a distinct sequence of branch decisions of the real code on symbolic inputs, "
